@@ -166,16 +166,15 @@ theorem qrids_append (q q' : List Item) : qrids (q ++ q') = qrids q ++ qrids q' 
 def givenTags (op : Op) (o : Obs) : List Nat :=
   (if isReqOk op o then [o.assigned] else []) ++ reqTags o.wrote
 
-/-- `specObs` accepts a step exactly when the five C11 clauses and the C02 clause hold -/
-theorem specObs_ok_iff (cfg : Cfg) (a : Acc) (idx : Nat) (op : Op) (o : Obs) :
-    specObs cfg a idx op o = .ok ↔
+/-- `specObsTags` accepts a step exactly when the five C11 clauses hold -/
+theorem specObsTags_ok_iff (cfg : Cfg) (a : Acc) (idx : Nat) (op : Op) (o : Obs) :
+    specObsTags cfg a idx op o = .ok ↔
       ((∀ t ∈ givenTags op o, 2 ≤ t ∧ t < cfg.max) ∧
        uniqueOk a.tags (reqTags o.wrote) = true ∧
        (∀ t ∈ o.free, t ∈ a.pfree ∨ answers op t = true ∨ t ∉ a.tags) ∧
        (isReqOk op o = true → a.pfree ≠ [] → o.assigned ∈ a.pfree) ∧
-       (op ≠ .reopen → o.next ≤ Nat.max a.peak o.tagmap.length + 1) ∧
-       ownReplyBad a op o = none) := by
-  unfold specObs givenTags
+       (op ≠ .reopen → o.next ≤ Nat.max a.peak (o.tagmap.length + a.held) + 1)) := by
+  unfold specObsTags givenTags
   simp only
   split
   · next t ht =>
@@ -255,30 +254,46 @@ theorem specObs_ok_iff (cfg : Cfg) (a : Acc) (idx : Nat) (op : Op) (o : Obs) :
               simp only [Bool.and_eq_true, bne_iff_ne, ne_eq, decide_eq_true_eq] at hhw
               constructor
               · intro h; cases h
-              · intro h; have := h.2.2.2.2.1 hhw.1; omega
+              · intro h; have := h.2.2.2.2 hhw.1; omega
             · next hhw =>
               simp only [Bool.and_eq_true, bne_iff_ne, ne_eq, decide_eq_true_eq, not_and, Nat.not_lt] at hhw
-              split
-              · next p hp =>
-                constructor
-                · intro h; cases h
-                · intro h; rw [h.2.2.2.2.2] at hp; cases hp
-              · next hp =>
-                constructor
-                · intro _; exact ⟨hr, hu', hrel, hreuse, fun h => by have := hhw h; omega, hp⟩
-                · intro _; rfl
+              constructor
+              · intro _; exact ⟨hr, hu', hrel, hreuse, fun h => by have := hhw h; omega⟩
+              · intro _; rfl
+
+/-- `specObs` accepts a step exactly when the five C11 clauses and the C02 clause hold -/
+theorem specObs_ok_iff (cfg : Cfg) (a : Acc) (idx : Nat) (op : Op) (o : Obs) :
+    specObs cfg a idx op o = .ok ↔
+      ((∀ t ∈ givenTags op o, 2 ≤ t ∧ t < cfg.max) ∧
+       uniqueOk a.tags (reqTags o.wrote) = true ∧
+       (∀ t ∈ o.free, t ∈ a.pfree ∨ answers op t = true ∨ t ∉ a.tags) ∧
+       (isReqOk op o = true → a.pfree ≠ [] → o.assigned ∈ a.pfree) ∧
+       (op ≠ .reopen → o.next ≤ Nat.max a.peak (o.tagmap.length + a.held) + 1) ∧
+       ownReplyBad a op o = none) := by
+  unfold specObs
+  cases hb : ownReplyBad a op o with
+  | some p =>
+    simp only
+    constructor
+    · intro h; cases h
+    · intro h; cases h.2.2.2.2.2
+  | none =>
+    simp only [specObsTags_ok_iff]
+    constructor
+    · rintro ⟨c1, c2, c3, c4, c5⟩; exact ⟨c1, c2, c3, c4, c5, trivial⟩
+    · rintro ⟨c1, c2, c3, c4, c5, _⟩; exact ⟨c1, c2, c3, c4, c5⟩
 
 /-! ### the invariant -/
 
 /-- L1 invariant of the pool and the tag map: every tag handed out so far (`2 … next`) is either
     free or awaiting an answer, never both, and `next` stays below `max`. -/
-structure PoolInv (max : Nat) (p : Pool) (m : List (Nat × Nat)) : Prop where
+structure PoolInv (max held : Nat) (p : Pool) (m : List (Nat × Nat)) : Prop where
   fnd : p.free.Nodup
   knd : (tmKeys m).Nodup
   frange : ∀ t ∈ p.free, 2 ≤ t ∧ t ≤ p.next
   krange : ∀ t ∈ tmKeys m, 2 ≤ t ∧ t ≤ p.next
   disj : ∀ t ∈ p.free, t ∉ tmKeys m
-  count : p.free.length + (tmKeys m).length + 1 = p.next
+  count : p.free.length + (tmKeys m).length + held + 1 = p.next
   nlt : p.next < max
 
 /-- send queue vs. requests vs. tag map vs. the spec's set of written-and-unanswered tags -/
@@ -289,13 +304,13 @@ structure QInv (unans : List Nat) (m : List (Nat × Nat)) (q : List Item) (reqs 
   usub : ∀ t ∈ unans, t ∈ tmKeys m
 
 structure Inv (cfg : Cfg) (a : Acc) (s : St) : Prop where
-  pool : PoolInv cfg.max s.pool s.tagmap
+  pool : PoolInv cfg.max a.held s.pool s.tagmap
   q : QInv a.tags s.tagmap s.sendq s.reqs
   own : ∀ p ∈ a.unans, tmLookup p.1 s.tagmap = some p.2
   pfree : a.pfree = sortNat s.pool.free
   peak : s.pool.next ≤ a.peak + 1
 
-theorem PoolInv_init {max : Nat} (h : 2 ≤ max) : PoolInv max Pool.init [] := by
+theorem PoolInv_init {max : Nat} (h : 2 ≤ max) : PoolInv max 0 Pool.init [] := by
   refine ⟨?_, ?_, ?_, ?_, ?_, ?_, ?_⟩
   all_goals simp [Pool.init, tmKeys]
   omega
@@ -303,13 +318,84 @@ theorem PoolInv_init {max : Nat} (h : 2 ≤ max) : PoolInv max Pool.init [] := b
 theorem QInv_init (reqs : List Req) : QInv [] [] [] reqs := by
   refine ⟨?_, ?_, ?_⟩ <;> simp [qrids]
 
-theorem Inv_init (cfg : Cfg) (h : 2 ≤ cfg.max) : Inv cfg {} St.init :=
+theorem Inv_fresh (cfg : Cfg) (h : 2 ≤ cfg.max) : Inv cfg {} St.init :=
   ⟨PoolInv_init h, QInv_init _, by simp, by simp [St.init, Pool.init, sortNat_nil], by simp [St.init, Pool.init]⟩
 
+/-! ### the starting pool of a connection of any age -/
+
+theorem nodupB_iff : ∀ {l : List Nat}, nodupB l = true ↔ l.Nodup
+  | [] => by simp [nodupB]
+  | x :: xs => by
+    simp only [nodupB, Bool.and_eq_true, Bool.not_eq_true', List.contains_eq_mem, decide_eq_false_iff_not,
+      List.nodup_cons, nodupB_iff]
+
+/-- `Pool.wf`, the invariant of the pool on its own, as a proposition -/
+theorem Pool.wf_iff {max : Nat} {p : Pool} :
+    p.wf max = true ↔ (p.free.Nodup ∧ (∀ t ∈ p.free, 2 ≤ t ∧ t ≤ p.next) ∧ 1 ≤ p.next ∧ p.next < max) := by
+  simp only [Pool.wf, Bool.and_eq_true, nodupB_iff, List.all_eq_true, decide_eq_true_eq]
+  constructor
+  · rintro ⟨⟨⟨h1, h2⟩, h3⟩, h4⟩; exact ⟨h1, h2, h3, h4⟩
+  · rintro ⟨h1, h2, h3, h4⟩; exact ⟨⟨⟨h1, h2⟩, h3⟩, h4⟩
+
+/-- distinct tags out of `[2, n]` are at most `n − 1` -/
+theorem length_le_of_range : ∀ (n : Nat) (l : List Nat), l.Nodup → (∀ t ∈ l, 2 ≤ t ∧ t ≤ n) → l.length ≤ n - 1 := by
+  intro n
+  induction n with
+  | zero =>
+    intro l _ hr
+    cases l with
+    | nil => simp
+    | cons x xs => have := hr x (by simp); omega
+  | succ n ih =>
+    intro l hn hr
+    have hn' : (l.erase (n + 1)).Nodup := hn.erase _
+    have hr' : ∀ t ∈ l.erase (n + 1), 2 ≤ t ∧ t ≤ n := by
+      intro t ht
+      have := (hn.mem_erase_iff).mp ht
+      have h2 := hr t this.2
+      have : t ≠ n + 1 := this.1
+      omega
+    have hlen := ih _ hn' hr'
+    by_cases hm : n + 1 ∈ l
+    · have h1 := List.length_erase_of_mem hm
+      have h2 := hr _ hm
+      have hpos := List.length_pos_of_mem hm
+      omega
+    · rw [List.erase_of_not_mem hm] at hlen
+      omega
+
+theorem wf_max {cfg : Cfg} (hc : cfgWF cfg = true) : 2 ≤ cfg.max := by
+  have := (Pool.wf_iff.mp hc).2.2
+  simp only [Cfg.pool] at this
+  omega
+
+/-- a well-formed starting pool together with an empty tag map is in the pool invariant, the
+    tags neither free nor in the tag map being the `Cfg.held` ones -/
+theorem PoolInv_start {cfg : Cfg} (hc : cfgWF cfg = true) : PoolInv cfg.max cfg.held cfg.pool [] := by
+  obtain ⟨h1, h2, h3, h4⟩ := Pool.wf_iff.mp hc
+  have hl := length_le_of_range _ _ h1 h2
+  simp only [Cfg.pool] at h1 h2 h3 h4 hl
+  refine ⟨h1, by simp [tmKeys], h2, by simp [tmKeys], by simp [tmKeys], ?_, h4⟩
+  simp only [Cfg.pool, Cfg.held, tmKeys, List.map_nil, List.length_nil]
+  omega
+
+/-- **the invariant holds at the start of every script**, whatever the age of the connection -/
+theorem Inv_init (cfg : Cfg) (hc : cfgWF cfg = true) : Inv cfg (Acc.init cfg) (initSt cfg) := by
+  refine ⟨PoolInv_start hc, QInv_init _, by simp [Acc.init], rfl, ?_⟩
+  have := (Pool.wf_iff.mp hc).2.2.1
+  simp only [Cfg.pool] at this
+  simp only [initSt, St.initWith, Cfg.pool, Acc.init]
+  omega
+
+/-- a fresh connection is the youngest well-formed start -/
+theorem initSt_fresh (max : Nat) (fl : Flavour) : initSt { max := max, fl := fl } = St.init := rfl
+
+theorem Acc_init_fresh (max : Nat) (fl : Flavour) : Acc.init { max := max, fl := fl } = {} := rfl
+
 /-- handing out tag `t` (popped from the free set, or fresh) and recording it in the tag map -/
-theorem PoolInv_acquire_fresh {max : Nat} {p : Pool} {m : List (Nat × Nat)} (rid : Nat)
-    (h : PoolInv max p m) (hf : p.free = []) (hne : p.next + 1 ≠ max) :
-    PoolInv max { p with next := p.next + 1 } (tmSet (p.next + 1) rid m) ∧ p.next + 1 ∉ tmKeys m := by
+theorem PoolInv_acquire_fresh {max held : Nat} {p : Pool} {m : List (Nat × Nat)} (rid : Nat)
+    (h : PoolInv max held p m) (hf : p.free = []) (hne : p.next + 1 ≠ max) :
+    PoolInv max held { p with next := p.next + 1 } (tmSet (p.next + 1) rid m) ∧ p.next + 1 ∉ tmKeys m := by
   have hnk : p.next + 1 ∉ tmKeys m := fun hk => by have := (h.krange _ hk).2; omega
   refine ⟨?_, hnk⟩
   have he : tmErase (p.next + 1) m = m := tmErase_of_not_mem hnk
@@ -329,9 +415,9 @@ theorem PoolInv_acquire_fresh {max : Nat} {p : Pool} {m : List (Nat × Nat)} (ri
   · simp only [hf, tmKeys, List.map_cons, List.length_cons, List.length_nil] at hcount ⊢; omega
   · simp only; omega
 
-theorem PoolInv_acquire_popped {max : Nat} {p : Pool} {m : List (Nat × Nat)} (rid t : Nat)
-    (h : PoolInv max p m) (ht : t ∈ p.free) :
-    PoolInv max { p with free := p.free.erase t } (tmSet t rid m) ∧ t ∉ tmKeys m := by
+theorem PoolInv_acquire_popped {max held : Nat} {p : Pool} {m : List (Nat × Nat)} (rid t : Nat)
+    (h : PoolInv max held p m) (ht : t ∈ p.free) :
+    PoolInv max held { p with free := p.free.erase t } (tmSet t rid m) ∧ t ∉ tmKeys m := by
   have hnk : t ∉ tmKeys m := h.disj t ht
   refine ⟨?_, hnk⟩
   have he : tmErase t m = m := tmErase_of_not_mem hnk
@@ -357,9 +443,9 @@ theorem PoolInv_acquire_popped {max : Nat} {p : Pool} {m : List (Nat × Nat)} (r
   · exact h.nlt
 
 /-- `_ReleaseTag` of a tag that is in the tag map -/
-theorem PoolInv_release {max : Nat} {p : Pool} {m : List (Nat × Nat)} (t : Nat)
-    (h : PoolInv max p m) (ht : t ∈ tmKeys m) :
-    PoolInv max (p.release t) (tmErase t m) ∧ (p.release t).free = t :: p.free ∧ (p.release t).next = p.next := by
+theorem PoolInv_release {max held : Nat} {p : Pool} {m : List (Nat × Nat)} (t : Nat)
+    (h : PoolInv max held p m) (ht : t ∈ tmKeys m) :
+    PoolInv max held (p.release t) (tmErase t m) ∧ (p.release t).free = t :: p.free ∧ (p.release t).next = p.next := by
   have hnf : t ∉ p.free := fun hf => h.disj t hf ht
   have hrel : p.release t = { p with free := t :: p.free } := by
     simp [Pool.release, hnf]
@@ -473,7 +559,10 @@ theorem after_pfree (a : Acc) (op : Op) (o : Obs) : (a.after op o).pfree = o.fre
   cases op <;> rfl
 
 theorem after_peak (a : Acc) (op : Op) (o : Obs) (h : op ≠ .reopen) :
-    (a.after op o).peak = Nat.max a.peak o.tagmap.length := by
+    (a.after op o).peak = Nat.max a.peak (o.tagmap.length + a.held) := by
+  cases op <;> first | rfl | exact absurd rfl h
+
+theorem after_held (a : Acc) (op : Op) (o : Obs) (h : op ≠ .reopen) : (a.after op o).held = a.held := by
   cases op <;> first | rfl | exact absurd rfl h
 
 theorem map_fst_reqPairs (fs : List Frame) : (reqPairs fs).map (·.1) = reqTags fs := by
@@ -501,7 +590,7 @@ theorem ownReplyBad_other (a : Acc) (op : Op) (o : Obs) (h2 : ∀ mt t, op ≠ .
   cases op <;> first | rfl | exact absurd rfl (h2 _ _)
 
 theorem step_pack (cfg : Cfg) (a : Acc) (idx : Nat) (op : Op) (s' : St) (out : Out) (hop : op ≠ .reopen)
-    (hpool : PoolInv cfg.max s'.pool s'.tagmap)
+    (hpool : PoolInv cfg.max a.held s'.pool s'.tagmap)
     (hown : ∀ p ∈ (a.after op (obsOf s' out)).unans, tmLookup p.1 s'.tagmap = some p.2)
     (hor : ownReplyBad a op (obsOf s' out) = none)
     (hq : QInv (a.after op (obsOf s' out)).tags s'.tagmap s'.sendq s'.reqs)
@@ -509,7 +598,7 @@ theorem step_pack (cfg : Cfg) (a : Acc) (idx : Nat) (op : Op) (s' : St) (out : O
     (huniq : uniqueOk a.tags (reqTags out.wrote) = true)
     (hfree : ∀ t ∈ s'.pool.free, t ∈ a.pfree ∨ answers op t = true ∨ t ∉ a.tags)
     (hreuse : isReqOk op (obsOf s' out) = true → a.pfree ≠ [] → out.assigned ∈ a.pfree)
-    (hpk : s'.pool.next ≤ Nat.max a.peak (tmKeys s'.tagmap).length + 1) :
+    (hpk : s'.pool.next ≤ Nat.max a.peak ((tmKeys s'.tagmap).length + a.held) + 1) :
     specObs cfg a idx op (obsOf s' out) = .ok ∧ Inv cfg (a.after op (obsOf s' out)) s' := by
   constructor
   · rw [specObs_ok_iff]
@@ -519,7 +608,7 @@ theorem step_pack (cfg : Cfg) (a : Acc) (idx : Nat) (op : Op) (s' : St) (out : O
     · intro _
       simp only [obsOf, length_sortNat]
       exact hpk
-  · refine ⟨hpool, hq, hown, ?_, ?_⟩
+  · refine ⟨by rw [after_held _ _ _ hop]; exact hpool, hq, hown, ?_, ?_⟩
     · rw [after_pfree]; rfl
     · rw [after_peak _ _ _ hop]
       simp only [obsOf, length_sortNat]
@@ -1029,11 +1118,11 @@ theorem Inv_step_send (cfg : Cfg) (a : Acc) (s : St) (idx : Nat) (h : Inv cfg a 
 /-- the invariant does not look at the `writing` flag of the state, nor at the time-out
     bookkeeping of the accumulator -/
 theorem Inv_congr {cfg : Cfg} {a a' : Acc} {s s' : St} (h : Inv cfg a s)
-    (hu : a'.unans = a.unans) (hpf : a'.pfree = a.pfree) (hpk : a'.peak = a.peak)
+    (hu : a'.unans = a.unans) (hpf : a'.pfree = a.pfree) (hpk : a'.peak = a.peak) (hh : a'.held = a.held)
     (h1 : s'.pool = s.pool) (h2 : s'.tagmap = s.tagmap) (h3 : s'.sendq = s.sendq) (h4 : s'.reqs = s.reqs) :
     Inv cfg a' s' := by
   refine ⟨?_, ?_, ?_, ?_, ?_⟩
-  · rw [h1, h2]; exact h.pool
+  · rw [hh, h1, h2]; exact h.pool
   · simp only [Acc.tags, hu, h2, h3, h4]; exact h.q
   · rw [hu, h2]; exact h.own
   · rw [hpf, h1]; exact h.pfree
@@ -1041,11 +1130,11 @@ theorem Inv_congr {cfg : Cfg} {a a' : Acc} {s s' : St} (h : Inv cfg a s)
 
 theorem specObs_wbegin (cfg : Cfg) (a : Acc) (idx : Nat) (o : Obs) :
     specObs cfg a idx .wbegin o = specObs cfg a idx .send o := by
-  simp [specObs, isReqOk, answers, ownReplyBad]
+  simp [specObs, specObsTags, isReqOk, answers, ownReplyBad]
 
 theorem specObs_plain_eq (cfg : Cfg) (a : Acc) (idx : Nat) (op : Op) (o : Obs) (h : op = .wend ∨ op = .quiet) :
     specObs cfg a idx op o = specObs cfg a idx .send o := by
-  rcases h with h | h <;> subst h <;> simp [specObs, isReqOk, answers, ownReplyBad]
+  rcases h with h | h <;> subst h <;> simp [specObs, specObsTags, isReqOk, answers, ownReplyBad]
 
 theorem stepSend_res_of_wrote (s : St) (h : (stepSend s).2.wrote.isEmpty = false) : (stepSend s).2.res = .ok := by
   unfold stepSend at h ⊢
@@ -1080,14 +1169,14 @@ theorem Inv_step_wbegin (cfg : Cfg) (a : Acc) (s : St) (idx : Nat) (h : Inv cfg 
       have hres := stepSend_res_of_wrote s he
       obtain ⟨hv, hinv⟩ := Inv_send_core cfg a s idx h (by rw [hres]; rfl)
       rw [specObs_wbegin]
-      exact ⟨hv, Inv_congr hinv rfl rfl rfl rfl rfl rfl rfl⟩
+      exact ⟨hv, Inv_congr hinv rfl rfl rfl rfl rfl rfl rfl rfl⟩
 
 /-- a step that changes nothing the invariant looks at and writes nothing -/
 theorem Inv_step_idle (cfg : Cfg) (a : Acc) (s s' : St) (idx : Nat) (op : Op) (h : Inv cfg a s)
     (hop : op = .wend ∨ op = .quiet)
     (h1 : s'.pool = s.pool) (h2 : s'.tagmap = s.tagmap) (h3 : s'.sendq = s.sendq) (h4 : s'.reqs = s.reqs) :
     specObs cfg a idx op (obsOf s' {}) = .ok ∧ Inv cfg (a.after op (obsOf s' {})) s' := by
-  have hs : Inv cfg a s' := Inv_congr h rfl rfl rfl h1 h2 h3 h4
+  have hs : Inv cfg a s' := Inv_congr h rfl rfl rfl rfl h1 h2 h3 h4
   have hne : op ≠ .reopen := by rcases hop with e | e <;> subst e <;> simp
   have hnp : ∀ m t, op ≠ .process m t := by intro m t; rcases hop with e | e <;> subst e <;> simp
   have hna : ∀ t, answers op t = false := by intro t; rcases hop with e | e <;> subst e <;> rfl
@@ -1147,11 +1236,11 @@ theorem mem_tmKeys_set {t x rid : Nat} {m : List (Nat × Nat)} : x ∈ tmKeys (t
 
 theorem Inv_req_tag (cfg : Cfg) (a : Acc) (s : St) (e : EvKind) (popped idx t : Nat) (p' : Pool)
     (h : Inv cfg a s)
-    (hp' : PoolInv cfg.max p' (tmSet t s.reqs.length s.tagmap))
+    (hp' : PoolInv cfg.max a.held p' (tmSet t s.reqs.length s.tagmap))
     (hnk : t ∉ tmKeys s.tagmap)
     (hfree : ∀ x ∈ p'.free, x ∈ s.pool.free)
     (hreuse : s.pool.free ≠ [] → t ∈ s.pool.free)
-    (hpk : p'.next ≤ Nat.max a.peak (tmKeys (tmSet t s.reqs.length s.tagmap)).length + 1) :
+    (hpk : p'.next ≤ Nat.max a.peak ((tmKeys (tmSet t s.reqs.length s.tagmap)).length + a.held) + 1) :
     let s' : St := { pool := p', tagmap := tmSet t s.reqs.length s.tagmap,
                      sendq := s.sendq ++ [.req s.reqs.length t],
                      reqs := s.reqs ++ [⟨.tag t, evOf e, false⟩], writing := s.writing }
@@ -1265,8 +1354,8 @@ theorem Inv_step_req (cfg : Cfg) (a : Acc) (s : St) (e : EvKind) (popped idx : N
       · intro x hx; simp at hx
       · intro hne; exact absurd hf hne
       · simp only [List.length_nil] at hcount ⊢
-        have : (tmKeys (tmSet (s.pool.next + 1) s.reqs.length s.tagmap)).length ≤
-            Nat.max a.peak (tmKeys (tmSet (s.pool.next + 1) s.reqs.length s.tagmap)).length := Nat.le_max_right _ _
+        have : (tmKeys (tmSet (s.pool.next + 1) s.reqs.length s.tagmap)).length + a.held ≤
+            Nat.max a.peak ((tmKeys (tmSet (s.pool.next + 1) s.reqs.length s.tagmap)).length + a.held) := Nat.le_max_right _ _
         omega
   | cons x xs =>
     simp only [hf] at hen ⊢
@@ -1379,7 +1468,7 @@ theorem spec_trace (cfg : Cfg) (hmax : 2 ≤ cfg.max) : ∀ (ops : List Op) (a :
 /-- the state the model is in after `ops` -/
 def reachFrom (cfg : Cfg) (s : St) (ops : List Op) : St := ops.foldl (fun s op => (stepOp cfg.fl cfg.max s op).1) s
 
-def reach (cfg : Cfg) (ops : List Op) : St := reachFrom cfg St.init ops
+def reach (cfg : Cfg) (ops : List Op) : St := reachFrom cfg (initSt cfg) ops
 
 /-- the state reached by the model and the accumulator of its history stay in the invariant -/
 theorem Inv_trace (cfg : Cfg) (hmax : 2 ≤ cfg.max) : ∀ (ops : List Op) (a : Acc) (s : St),
@@ -1401,18 +1490,45 @@ theorem Inv_trace (cfg : Cfg) (hmax : 2 ≤ cfg.max) : ∀ (ops : List Op) (a : 
   `unanswered h` is the L0 state of the property text — the set of tags carried by request
   frames written on this connection that the peer has not answered since — computed from the
   observations alone (`Acc.after`): a written request frame adds its tag, a processed peer frame
-  for tag `t` removes `t`, a new connection empties it. -/
+  for tag `t` removes `t`, a new connection empties it.  The accumulator starts from `Acc.init cfg`:
+  on an aged connection the free set before the first step, the peak and the number of tags still
+  out are those of the starting pool. -/
 
-def unanswered (h : List (Op × Obs)) : List Nat := (accAfter {} h).tags
+def unanswered (cfg : Cfg) (h : List (Op × Obs)) : List Nat := (accAfter (Acc.init cfg) h).tags
 
 /-- the same with the request id each such frame carried -/
-def unansweredPairs (h : List (Op × Obs)) : List (Nat × Nat) := (accAfter {} h).unans
+def unansweredPairs (cfg : Cfg) (h : List (Op × Obs)) : List (Nat × Nat) := (accAfter (Acc.init cfg) h).unans
 
-/-- the free set shown by the last observation of `h` (empty before the first) -/
-def freeBefore (h : List (Op × Obs)) : List Nat := (accAfter {} h).pfree
+/-- the free set shown by the last observation of `h` (before the first: the starting pool's) -/
+def freeBefore (cfg : Cfg) (h : List (Op × Obs)) : List Nat := (accAfter (Acc.init cfg) h).pfree
 
-/-- peak number of tags awaiting an answer over `h` (since the last re-open) -/
-def peakInUse (h : List (Op × Obs)) : Nat := (accAfter {} h).peak
+/-- peak number of tags awaiting an answer over `h` (since the last re-open; on an aged connection
+    counted from `next − 1` of the starting pool) -/
+def peakInUse (cfg : Cfg) (h : List (Op × Obs)) : Nat := (accAfter (Acc.init cfg) h).peak
+
+/-- tags of this connection handed out before the script and still awaiting their answer
+    (`Cfg.held` until the connection is replaced, 0 afterwards) -/
+def heldBefore (cfg : Cfg) (h : List (Op × Obs)) : Nat := (accAfter (Acc.init cfg) h).held
+
+/-- a step never changes the number of tags held since before the script, except a re-open (→ 0) -/
+theorem held_le_step (a : Acc) (op : Op) (o : Obs) : (a.after op o).held ≤ a.held := by
+  cases op <;> first | exact Nat.le_refl _ | exact Nat.zero_le _
+
+theorem held_le : ∀ (h : List (Op × Obs)) (a : Acc), (accAfter a h).held ≤ a.held := by
+  intro h
+  induction h with
+  | nil => intro a; exact Nat.le_refl _
+  | cons p h ih =>
+    intro a
+    simp only [accAfter, List.foldl_cons]
+    exact Nat.le_trans (ih _) (held_le_step a p.1 p.2)
+
+/-- on a fresh connection no tag is held from before -/
+theorem heldBefore_fresh (cfg : Cfg) (h : List (Op × Obs)) (hn : cfg.next = 1) : heldBefore cfg h = 0 := by
+  have h1 := held_le h (Acc.init cfg)
+  have h2 : (Acc.init cfg).held = 0 := by simp [Acc.init, Cfg.held, hn]
+  simp only [heldBefore]
+  omega
 
 theorem uniqueOk_spec {u : List Nat} : ∀ {ts : List Nat}, uniqueOk u ts = true → (∀ t ∈ ts, t ∉ u) ∧ ts.Nodup
   | [], _ => ⟨by simp, List.nodup_nil⟩
